@@ -59,6 +59,14 @@ CHECKS = {
   text="Every case runs in a worker process jailed in a fresh sandbox (cwd and TMPDIR inside it); a default-options file.Store receives one or more pushes (archives to unpack, named blobs, manifests that restore a titled layer) and everything outside the working directory is snapshotted before and after each push (type, permission bits, SHA-256, link target). All tar entry sequences up to length 3 (quick) / 4 (thorough) over a 24-entry vocabulary are enumerated, together with all title segment sequences, vocabulary sequences followed by 13 follow-up pushes, random and corpus-mutated sequences up to 10 entries and a regression corpus; a push whose title, entry name or link target is lexically outside must return an error.",
   note="Default options only; times and link counts of outside objects are not judged. Pre-existing links in the working directory point inside only. Linux, root, single file system. Trusted base: the harness's snapshot and diff code. Exhaustive only over the stated vocabulary and lengths.",
   tech="runtime monitoring: sandboxed file-system snapshot-diff monitor, bounded-exhaustive plus random tar/title generation"),
+ "C08": dict(cat="exploration",
+  text="Seeded random operation histories (Push, bad push, Tag, re-tag, Untag, Delete, GC, SaveIndex; AutoSaveIndex and AutoGC on/off; annotated descriptors, tags on blobs, odd reference names) over random Merkle DAGs run on the real oci.Store. After every step the raw directory is validated against the on-disk clauses (oci-layout and index.json parse, blobs named by their digest, named index entries point to existing blobs of the recorded size) and the full public-API observable state of the original (Tags, Resolve by tag and by digest, Exists, Fetch, Predecessors) is compared with the same directory reopened read-write, through fs.FS and from tar archives written by archive/tar and by the system tar.",
+  note="One media type per digest; Tag descriptors carry the true media type and size. With AutoSaveIndex off the layout is judged only after SaveIndex. Trusted base: the harness validator (go-digest, encoding/json), archive/tar, the system tar. Held on the histories explored.",
+  tech="runtime monitoring: on-disk layout validator + differential observation of original vs reopened stores over seeded histories"),
+ "C10": dict(cat="fault_enumeration",
+  text="For each of 44 hand-scripted and 56 (quick) / 1500 (thorough) seeded histories, every file-system-mutating system call inside the one interrupted operation (Push, Tag, Untag, Delete with and without cascade, SaveIndex, GC) is a crash point: a ptrace supervisor kills the process at the entry of the k-th such call for every k, each on a fresh copy of the prepared directory. Every crashed directory is reopened by a fresh untraced process and checked in full (opens, blobs hash to their names, every index entry names an existing blob, tag mapping equals the before or the after mapping obtained from uninterrupted runs, effects of returned operations present).",
+  note="Process crash, not power loss: completed writes are visible after the kill. One interrupted operation per history, issued from one goroutine. Exhaustive per history (every enumeration reaches a completed run). Trusted base: tools/crashat.c (counted syscall set; close not counted), Linux ptrace semantics, the layout validator.",
+  tech="runtime monitoring: ptrace crash-point injection at every FS-mutating syscall + fresh-process oracle on the crashed directory"),
 }
 
 PENDING_REASON = "check under construction in this session (not yet claimed); the technique applies"
